@@ -1,6 +1,7 @@
 package stores
 
 import (
+	"encoding/json"
 	"bytes"
 	"fmt"
 	"os"
@@ -68,6 +69,43 @@ func propC29VersionUpgradeOnlyWhenIdle(t testing.TB) {
 				allTerminal = false
 			}
 			states = append(states, string(sm.Current))
+		}
+		// a record this release cannot decode (written by another release, or damaged) may be a pending swap:
+		// it counts as not finished
+		if nswaps > 0 && rapid.IntRange(0, 4).Draw(t, "unreadableRecord") == 0 {
+			how := rapid.SampledFrom([]string{"last_message-object", "garbage", "truncated"}).Draw(t, "unreadableHow")
+			err := db.Update(func(tx *bbolt.Tx) error {
+				bk := tx.Bucket([]byte("swaps"))
+				k, v := bk.Cursor().First()
+				if k == nil {
+					return nil
+				}
+				var nv []byte
+				switch how {
+				case "garbage":
+					nv = []byte("\x00\x01not json")
+				case "truncated":
+					nv = append([]byte{}, v[:len(v)/2]...)
+				default:
+					var x map[string]interface{}
+					if json.Unmarshal(v, &x) != nil {
+						return nil
+					}
+					d, _ := x["data"].(map[string]interface{})
+					if d == nil {
+						d = map[string]interface{}{}
+						x["data"] = d
+					}
+					d["last_message"] = map[string]interface{}{"swap_id": "00", "x": 1}
+					nv, _ = json.Marshal(x)
+				}
+				return bk.Put(append([]byte{}, k...), nv)
+			})
+			if err != nil {
+				t.Fatal(err)
+			}
+			allTerminal = false
+			states = append(states, "unreadable:"+how)
 		}
 		sort.Strings(states)
 		vs, err := version.NewVersionService(db)
